@@ -16,7 +16,7 @@ META = {
                     "const types are usize",
                     "fuel: the model's OutOfFuel outcome is excluded by the theorems and never observed in the correspondence (fuel 200 >> term depth)",
                     "relate_sound assumes the invariants inv K U t of the table (established by new tables and preserved by every successful relate) and well-kinded, in-scope arguments (okt)"],
-    "quick_s": 70, "thorough_s": 700,
+    "quick_s": 70, "thorough_s": 600,
 }
 
 THEOREMS = ["relate_sound", "teq_sound_in_models", "relate_complete_partial"]
@@ -172,7 +172,7 @@ def run(ctx):
     core.build_harness(bins=["infer"])
     r = ctx.rng
     fams = [("pinned", pinned_cases()), ("sweep", sweep_cases(both=False))]    # both orders of the sweep: C15
-    total = ctx.n(1500, 130000)
+    total = ctx.n(1500, 8000)
     fams.append(("c14-invariant", random_cases(ctx, total // 2, r, PROFILES["c14-invariant"])))
     fams.append(("c14-covariant-lifetime-free", random_cases(ctx, total // 5, r, PROFILES["c14-covariant-lifetime-free"])))
     fams.append(("extended", random_cases(ctx, total - total // 2 - total // 5, r, PROFILES["extended"])))
